@@ -619,7 +619,14 @@ fn case_variants(name: &str) -> Vec<Vec<u8>> {
             mixed.push(c);
         }
     }
-    let mut v = vec![up.into_bytes(), low.into_bytes(), mixed.into_bytes()];
+    let mut v = vec![up.into_bytes(), low.clone().into_bytes(), mixed.into_bytes()];
+    // a spelling whose upper-casing needs Unicode rules: U+017F (long s) and U+0131 (dotless i) upper-case to S and I;
+    // whatever a parser makes of such a name, every entry path has to make the same of it
+    if let Some(i) = low.find('s') {
+        v.push(format!("{}\u{17f}{}", &low[..i], &low[i + 1..]).into_bytes());
+    } else if let Some(i) = low.find('i') {
+        v.push(format!("{}\u{131}{}", &low[..i], &low[i + 1..]).into_bytes());
+    }
     v.dedup();
     v
 }
@@ -1299,6 +1306,7 @@ fn main() {
     }
     name_variants.push(Vec::new());
     name_variants.push(b"\xffGET".to_vec());
+    name_variants.push("\u{e9}cho".as_bytes().to_vec()); // unknown to every parser: the error text names it the same way
     let name_set: BTreeSet<Vec<u8>> = name_variants.iter().cloned().collect();
     let pool2_set: BTreeSet<Vec<u8>> = pool2.iter().cloned().collect();
 
